@@ -177,7 +177,7 @@ class Validator:
             self.mods[key] = tlc.write_mc(self.dir, d.name, cfg, "trace", self.vars, ninst=ninst, trace_invs=invs,
                                           name="TR_%s_%s_%d_%s" % (d.name, cfg, ninst, tag))
         return self.mods[key]
-    def validate(self, d, cfg, trace_path, ninst=1, timeout=900, invs=()):
+    def validate(self, d, cfg, trace_path, ninst=1, timeout=2400, invs=()):
         name = self.trace_module(d, cfg, ninst, invs)
         rc, out, t = tlc.run_tlc(self.dir, name, trace=os.path.abspath(trace_path), workers=1, timeout=timeout)
         st = tlc.parse_stats(out)
